@@ -3,6 +3,8 @@
 -/
 import PCV.Proofs.MarlinMore
 import PCV.Proofs.MarlinStatement
+import PCV.Proofs.MarlinBatchShift
+import PCV.Props.C01_MarlinBatch
 import PCV.Props.C01_Marlin
 
 namespace PCV.C02
@@ -77,6 +79,31 @@ theorem marlin_wrong_point_rejected (vk : VK F) (cs : List (LComm F)) (z z' : F)
   have := (check_other_point_iff vk cs z z' vs ξs π rest hacc).1 hx
   simp only [mul_eq_zero, sub_eq_zero] at this
   rcases this with (h1 | h1) | h1 <;> contradiction
+
+/-- **MarlinKZG10, every position of a batched opening.**  Shift the claimed values of an accepted batch
+by ANY function `δ` of the key (polynomial label, point) — one wrong value, several, errors planted to
+cancel across polynomials of one point label or across point labels: the batch is accepted iff
+`h · Σₖ ρₖ · ⟨κₖ, dsₖ⟩ = 0`, where `k` runs over the point labels, `ρₖ` is the verifier's randomizer
+(`ρ₀ = 1`), `κₖ` the challenge weights of that label's members and `dsₖ` their shifts. -/
+theorem marlin_batch_values_iff (vk : VK F) (comms : List (LComm F)) (qs : List (Query F))
+    (evals : List ((Label × F) × F)) (δ : Label × F → F) (πs : List (KZG.Proof F)) (ξs rs : List F)
+    (trip : List (F × F × F)) (rest : List F)
+    (hc : combineGroups vk comms evals (groupQueries qs) ξs = .ok (trip, rest))
+    (hlen : πs.length = trip.length)
+    (hacc : batchCheck vk comms qs evals πs ξs rs = .ok true) :
+    batchCheck vk comms qs (shiftEvals δ evals) πs ξs rs = .ok true ↔
+      vk.vk.h * KZG.wsum 1 rs (groupShifts vk comms evals δ (groupQueries qs) ξs) = 0 :=
+  batchCheck_shift_iff vk comms qs evals δ πs ξs rs trip rest hc hlen hacc
+
+/-- non-vacuity on the batch of `C01.exBatch`: `+1` on the claim of `[98]` at the second point label -/
+example : groupShifts C01.exVK (C01.exBatch.map (·.2.2))
+      [(([97], 5), evalPoly [1, 2, 3] 5), (([98], 5), evalPoly [4, 0, 1] 5), (([98], 9), evalPoly [4, 0, 1] 9)]
+      (fun k => if k = ([98], 9) then 1 else 0) (groupQueries C01.exQueries) [11, 13, 17, 19]
+    = [0, 51] ∧
+    batchCheck C01.exVK (C01.exBatch.map (·.2.2)) C01.exQueries
+      (shiftEvals (fun k => if k = ([98], 9) then 1 else 0)
+        [(([97], 5), evalPoly [1, 2, 3] 5), (([98], 5), evalPoly [4, 0, 1] 5), (([98], 9), evalPoly [4, 0, 1] 9)])
+      [⟨22, none⟩, ⟨56, none⟩] [11, 13, 17, 19] [29] = .ok false := by decide
 
 example : check C01.exVK [⟨[112], ⟨43 + 1, some 90⟩, some 2⟩] 10 [evalPoly [1, 2, 3] 10]
     ⟨49, some 68⟩ [11, 13] = .ok (false, []) := by decide
